@@ -1,5 +1,135 @@
-import Driver.Proto
-/- Streams of C03 (stub: not built yet). -/
+import Casket.Model.Chain
+import Casket.Spec.Chain
+import Driver.C02
+/-
+Streams of C03.
+
+  c03.chain  fs root casketfile prefix browse index directives method target acceptenc creds
+     first six and method/target/acceptenc as in c02.serve
+     directives  hex of lines:
+         tryfiles <to…> [| except <p…>] [| without <w>]
+         rewrite exact|substr|base <pattern> <to…>
+         ext <.e…>
+         basicauth <user> <pass> <res,res…> [<excl,excl…>]
+         internal <path>
+         proxy <from> <backend number>
+         gzip                                   (no effect on decoded content)
+       a `to` token is literal text in which `{path}` is the placeholder
+     creds       hex of user:password ("" = no Authorization header)
+     out         as c02.serve, plus  U401  and  B TAB <backend number>
+-/
 namespace Driver.C03
-def streams : List Driver.Stream := []
+open Casket.Path Casket.FS Casket.FileServe Casket.Chain Driver.C02
+
+def wordsOf (l : Bytes) : List Bytes := (splitOn 32 l).filter (· ≠ [])
+
+/-- split literal text at the occurrences of `{path}` -/
+def parseTemplate (b : Bytes) : Template :=
+  let rec go (fuel : Nat) (b : Bytes) (acc : Bytes) : Template :=
+    match fuel with
+    | 0 => if acc = [] then [] else [.lit acc.reverse]
+    | fuel + 1 =>
+      match b with
+      | [] => if acc = [] then [] else [.lit acc.reverse]
+      | c :: rest =>
+        if hasPrefix b (b! "{path}") then
+          (if acc = [] then [] else [.lit acc.reverse]) ++ .origPath :: go fuel (b.drop 6) []
+        else go fuel rest (c :: acc)
+  go (b.length + 1) b []
+
+def splitBar (ws : List Bytes) : List (List Bytes) :=
+  ws.foldr (fun w acc => if w = [124] then [] :: acc else match acc with | [] => [[w]] | a :: r => (w :: a) :: r) [[]]
+
+def commaList (b : Bytes) : List Bytes := if b = [] ∨ b = [45] then [] else splitOn 44 b
+
+def applyDirective (defaultWithout : Bytes) (cs : ChainSite) (line : Bytes) : Option ChainSite :=
+  match wordsOf line with
+  | [] => some cs
+  | d :: args =>
+    if d = b! "tryfiles" then
+      match splitBar args with
+      | tos :: opts =>
+        let base : TryFiles := {
+          to := if tos = [] then [.origPath] :: Casket.Generated.defaultIndexPages.map (fun p => [.lit p]) else tos.map parseTemplate,
+          except := if defaultWithout = [] then [b! "/.well-known"] else [b! "/.well-known", join2 defaultWithout (b! "/.well-known")],
+          without := defaultWithout }
+        let tf := opts.foldl (fun (tf : TryFiles) o =>
+          match o with
+          | k :: vs => if k = b! "except" then { tf with except := vs } else if k = b! "without" then { tf with without := vs.headD [] } else tf
+          | [] => tf) base
+        some { cs with tryfiles := some tf }
+      | [] => none
+    else if d = b! "rewrite" then
+      match args with
+      | k :: pat :: tos =>
+        let to := tos.map parseTemplate
+        if k = b! "exact" then some { cs with rewrites := cs.rewrites ++ [.exact pat to] }
+        else if k = b! "substr" then some { cs with rewrites := cs.rewrites ++ [.substr pat to] }
+        else if k = b! "base" then some { cs with rewrites := cs.rewrites ++ [.base pat to] }
+        else none
+      | _ => none
+    else if d = b! "ext" then some { cs with exts := cs.exts ++ args }
+    else if d = b! "basicauth" then
+      match args with
+      | [u, p, res] => some { cs with auth := cs.auth ++ [{ user := u, pass := p, resources := commaList res, excludes := [] }] }
+      | [u, p, res, ex] => some { cs with auth := cs.auth ++ [{ user := u, pass := p, resources := commaList res, excludes := commaList ex }] }
+      | _ => none
+    else if d = b! "internal" then
+      match args with
+      | [p] => some { cs with internal := cs.internal ++ [p], site := { cs.site with hide := cs.site.hide ++ [p] } }
+      | _ => none
+    else if d = b! "proxy" then
+      match args with
+      | [f, n] => (parseNatBytes n).map fun id => { cs with proxies := cs.proxies ++ [(f, id)] }
+      | _ => none
+    else if d = b! "gzip" then some cs
+    else none
+
+structure Case where
+  fs : FS
+  cs : ChainSite
+  req : CReq
+
+def parseCase : List String → Option Case
+  | [fsH, rootH, cfH, preH, brH, ixH, dirH, method, tgtH, aeH, credH] => do
+    let c ← Driver.C02.parseCase [fsH, rootH, cfH, preH, brH, ixH, method, tgtH, aeH]
+    let dirs ← Driver.unhex dirH
+    let cred ← Driver.unhex credH
+    let cs0 : ChainSite := { site := c.site, tryfiles := none, rewrites := [], exts := [], auth := [], internal := [], proxies := [] }
+    let defaultWithout := if c.site.pathPrefix = [slash] then [] else c.site.pathPrefix
+    let cs ← (if dirs = [] then [] else splitOn 10 dirs).foldlM (applyDirective defaultWithout) cs0
+    let creds := if cred = [] then none else
+      let c3 := cut 58 cred
+      some (c3.1, c3.2.1)
+    pure { fs := c.fs, cs := cs, req := { method := c.method, target := c.target, acceptEncoding := c.ae, creds := creds } }
+  | _ => none
+
+def renderC (method : Bytes) : CResp → String
+  | .served r => if method = mHEAD then (match r with | .file _ _ => "H200\t-" | _ => render method r) else render method r
+  | .unauthorized => "U401"
+  | .backend id => if method = mHEAD then "H200\t-" else s!"B\t{id}"
+
+def chainModel (f : List String) : String :=
+  match parseCase f with
+  | none => "bad-case"
+  | some c => renderC c.req.method (chainServe c.fs c.cs c.req)
+
+def parseObsC (out : String) : Option CResp :=
+  if out = "U401" then some .unauthorized
+  else match out.splitOn "\t" with
+    | ["B", n] => n.toNat?.map CResp.backend
+    | _ => (parseObs out).map CResp.served
+
+def chainJudge (f : List String) (out : String) : String :=
+  match parseCase f with
+  | none => "bad:unparsable:case"
+  | some c =>
+    match parseObsC out with
+    | none => "bad:unparsable:" ++ out
+    | some obs => Casket.ChainSpec.verdict c.fs c.cs c.req obs
+
+def streams : List Driver.Stream := [
+  { name := "c03.chain", model := chainModel, judge := chainJudge }
+]
+
 end Driver.C03
